@@ -134,6 +134,33 @@ def p_mark_finished(chk):
     chk.static("jobs.frame.outcome_fields_written_only_by__mark_finished", ok and writers, f"writers of done/error/result: {writers}")
 
 
+def p_finishjob(chk):
+    """finishjob / killjobs on a job that is already finished change nothing (the first of
+    finish / kill / timeout wins); on an unfinished one they go through _mark_finished"""
+    ex = c16.new_explorer()
+    fn = ex.function(JOBS, "workq.finishjob")
+
+    def harness(I):
+        S, w = c16.start(I, ex)
+        jid = I.sym_int("jobid@id")
+        I.assume(jid.z != 0)
+        I.assume(z3.Select(S["id_has"], jid.z))
+        j = z3.Select(S["id_val"], jid.z)
+        before = S.copy()
+        was_done = I.decide(z3.Select(S["j_done"], j))
+        err = None if I.decide(I.sym_bool("error_none").z) else I.sym_str("error")
+        out = ex.run_function(I, fn, [w, jid], {"result": qm.json_of(I, I.fresh("res", Z)), "error": err})
+        I.oblige("no_raise", out.returned, meta=c16.note_exc(out))
+        S1 = st(I)
+        if was_done:
+            for k in ("j_done", "j_err_none", "j_err", "j_result", "j_ttl", "e_set", "c_error", "c_timeout", "c_killed", "c_success"):
+                I.oblige("finality.late_report_changes_nothing." + k, S1.t[k].eq(before.t[k]) or S1.t[k] == before.t[k])
+        else:
+            I.oblige("marks_done", z3.Select(S1["j_done"], j))
+
+    chk.prove("jobs.workq.finishjob", harness, ex, targets=[fn], replay=replay_history)
+
+
 # ----------------------------------------------------------------------------- pop: eligibility, not finished, order
 preenall_contract = qm.preenall_contract
 
@@ -341,7 +368,7 @@ def bounded(chk):
 def run(chk):
     import os
     only = os.environ.get("VERIF_ONLY")
-    parts = [("order", p_order), ("mark", p_mark_finished), ("pop", p_pop), ("idem", p_push_idempotent),
+    parts = [("order", p_order), ("mark", p_mark_finished), ("finishjob", p_finishjob), ("pop", p_pop), ("idem", p_push_idempotent),
              ("callers", p_pushjob_callers), ("handoff", p_handoff_not_finished), ("bounded", bounded)]
     for name, fn in parts:
         if only and name not in only.split(","):
